@@ -185,11 +185,12 @@ func (m *Material) Bytes(v Val) []byte {
 // Decodes says whether Unmarshal accepts the bytes (checked against the real decoder by the
 // driver whenever it matters).
 func (m *Material) Decodes(v Val) bool {
-	if v.Kind == "notg1" {
+	switch v.Kind {
+	case "notg1":
 		return false
-	}
-	if v.Kind == "raw" {
-		return new(shcrypto.EpochSecretKeyShare).Unmarshal(unhex(v.Raw)) == nil
+	case "raw", "comb", "inf":
+		// ask the real decoder: a sum with a term outside G1 is itself outside G1
+		return new(shcrypto.EpochSecretKeyShare).Unmarshal(m.Bytes(v)) == nil
 	}
 	return true
 }
@@ -203,7 +204,7 @@ func (m *Material) CoqLabel(v Val) string {
 		return vh.CSome(vh.CApp("LKey", vh.CN(uint64(v.Set)), vh.CBytes(unhex(v.Ident))))
 	case "notg1":
 		return "None"
-	case "raw":
+	case "raw", "comb", "inf":
 		if !m.Decodes(v) {
 			return "None"
 		}
@@ -225,4 +226,28 @@ func (m *Material) ClassifyKey(ident, key []byte) string {
 		}
 	}
 	return "LOther"
+}
+
+// Canon replaces a "comb" value whose bytes coincide with one of its own share / key terms
+// (the other terms cancel, or are byte strings that are no group elements and count as the
+// point at infinity) by that term: the description of a value must say what the value is.
+func (m *Material) Canon(v Val) Val {
+	if v.Kind != "comb" {
+		return v
+	}
+	b := m.Bytes(v)
+	for _, t := range v.Terms {
+		tv := m.Canon(t.Val)
+		if (tv.Kind == "share" || tv.Kind == "key" || tv.Kind == "junk") && !t.Neg && string(m.Bytes(tv)) == string(b) {
+			return tv
+		}
+	}
+	return v
+}
+
+// CanonMsg canonicalises every value of the message.
+func (m *Material) CanonMsg(msg *Msg) {
+	for i := range msg.Items {
+		msg.Items[i].Val = m.Canon(msg.Items[i].Val)
+	}
 }
